@@ -1,5 +1,21 @@
-import SmtpV.Model.Server
+import SmtpV.Props.C20
 import SmtpV.Spec.Monitors
-/-! # C04 (theorems follow) -/
+/-!
+# C04 — one well-formed reply per command, reporting that command's outcome
+
+Clause (d), "never the outcome of an earlier or aborted transaction", for chunked transfers is the
+L3 theorem below (proved in Props/C20.lean for every program and every schedule).  Clauses (a)–(c)
+(syntax, count/order, enhanced-code class) are judged by `Spec.Mon.check4` on recorded traces and
+tied by the correspondence; their theorems are work in progress.
+-/
 namespace SmtpV.Props.C04
+open SmtpV SmtpV.Chunked
+
+/-- **C04_own_verdict.**  For every sequence of transfers (opened, aborted, completed) and every
+    interleaving of the command loop with the delivery goroutines, the verdict sent to the client for
+    a transfer is the backend's verdict for that very transfer. -/
+theorem C04_own_verdict (res : Nat → Nat) (prog : List Op) (sched : List Nat) :
+    OwnVerdict res (exec false res (Chunked.init prog) sched) :=
+  SmtpV.Props.C20.own_verdict_all_schedules res prog sched
+
 end SmtpV.Props.C04
